@@ -309,38 +309,48 @@ def _res(name, ok, line=0, note=''):
     return r
 
 
+def _shape(name, good, bad=False, line=0, note=''):
+    """good: the shape the argument needs is present; bad: a shape known to break the property is present; neither:
+    the code was restructured - undecided, never a violation."""
+    r = smt.shape(name, good, bad, line, note)
+    r.replay_fn = _witness
+    return r
+
+
 def static_kv1_convert(repo):
     """Second loop of from_kv1 and the glue: a child is stored as an attribute (`elem[child.real_name] = child.value`) only
     on the branch `not (no_inline or child.has_children())`; blocks and leaves together force no_inline; nothing
     resets no_inline between the loops."""
     fn = extract.load(M).find('Element.from_kv1')
     loops = [n for n in fn.body if isinstance(n, ast.For)]
-    out = [_res('kv1.two_loops_over_the_children', len(loops) == 2 and all(ast.unparse(l.iter) == 'props' for l in loops),
-                fn.lineno)]
+    out = [_shape('kv1.two_loops_over_the_children', len(loops) == 2 and all(ast.unparse(l.iter) == 'props' for l in loops),
+                  False, fn.lineno)]
     if len(loops) != 2:
         return out
     second = loops[1]
     ok = (len(second.body) == 1 and isinstance(second.body[0], ast.If)
           and ast.unparse(second.body[0].test) == 'no_inline or child.has_children()')
-    out.append(_res('kv1.inline_branch_is_guarded_by_no_inline', ok, second.lineno))
+    unguarded = len(second.body) == 1 and isinstance(second.body[0], ast.If) and 'no_inline' not in ast.unparse(second.body[0].test)
+    out.append(_shape('kv1.inline_branch_is_guarded_by_no_inline', ok, unguarded, second.lineno))
     if ok:
         els = second.body[0].orelse
-        out.append(_res('kv1.inline_branch_stores_under_the_original_name',
-                        len(els) == 1 and ast.unparse(els[0]) == 'elem[child.real_name] = child.value', second.lineno))
+        out.append(_shape('kv1.inline_branch_stores_under_the_original_name',
+                          len(els) == 1 and ast.unparse(els[0]) == 'elem[child.real_name] = child.value',
+                          len(els) == 1 and ast.unparse(els[0]) == 'elem[child.name] = child.value', second.lineno))
         then = second.body[0].body
-        out.append(_res('kv1.other_branch_recurses_into_subkeys',
-                        any('subkeys.append(cls.from_kv1(child))' == ast.unparse(s) for s in then), second.lineno))
+        out.append(_shape('kv1.other_branch_recurses_into_subkeys',
+                          any('subkeys.append(cls.from_kv1(child))' == ast.unparse(s) for s in then), False, second.lineno))
     between = fn.body[fn.body.index(loops[0]) + 1: fn.body.index(second)]
     resets = [ast.unparse(s) for s in between for n in ast.walk(s)
               if isinstance(n, ast.Assign) and any(isinstance(t, ast.Name) and t.id == 'no_inline' for t in n.targets)
               and ast.unparse(n.value) != 'True']
-    out.append(_res('kv1.no_inline_is_not_reset_between_the_loops', not resets, note=str(resets)))
+    out.append(_shape('kv1.no_inline_is_not_reset_between_the_loops', not resets, bool(resets), note=str(resets)))
     mixed = any(isinstance(s, ast.If) and ast.unparse(s.test) in ('has_block and has_leaf', 'has_leaf and has_block')
                 and ast.unparse(s.body[0]) == 'no_inline = True' for s in between)
-    out.append(_res('kv1.blocks_and_leaves_together_forbid_inlining', mixed))
+    out.append(_shape('kv1.blocks_and_leaves_together_forbid_inlining', mixed, False))
     subk = any(isinstance(s, ast.If) and ast.unparse(s.test) in ('no_inline or has_block', 'has_block or no_inline')
                for s in between)
-    out.append(_res('kv1.subkeys_array_exists_whenever_it_is_appended_to', subk))
+    out.append(_shape('kv1.subkeys_array_exists_whenever_it_is_appended_to', subk, False))
     return out
 
 
@@ -443,8 +453,8 @@ def static_stringdb(repo):
     out.append(_res('stringdb.collected_under_every_condition_it_is_looked_up', ok,
                     unguarded[0][0] if unguarded else exp.lineno, guard_note))
     src = ast.unparse(exp)
-    out.append(_res('stringdb.table_is_the_sorted_set', 'string_list = sorted(used_strings)' in src
-                    and 'string_to_ind = {text: ind for ind, text in enumerate(string_list)}' in src, exp.lineno))
+    out.append(_shape('stringdb.table_is_the_sorted_set', 'string_list = sorted(used_strings)' in src
+                      and 'string_to_ind = {text: ind for ind, text in enumerate(string_list)}' in src, False, exp.lineno))
 
     def fmt_chain(fn):
         for n in ast.walk(fn):
@@ -452,8 +462,8 @@ def static_stringdb(repo):
                 return ast.unparse(n).replace("= None", "= ''")
         return None
     a, b = fmt_chain(exp), fmt_chain(par)
-    out.append(_res('stringdb.both_directions_use_the_same_formats_per_version', a is not None and a == b, exp.lineno,
-                    f'{a!r} vs {b!r}' if a != b else ''))
+    out.append(_shape('stringdb.both_directions_use_the_same_formats_per_version', a is not None and a == b,
+                      a is not None and b is not None and a != b, exp.lineno, f'{a!r} vs {b!r}' if a != b else ''))
     return out
 
 
@@ -483,7 +493,8 @@ def static_kv2_escape(repo):
            _res('kv2.every_text_is_escaped', not bad, bad[0][0] if bad else fn.lineno, str(bad))]
     # the parser side: the tokenizer is created with allow_escapes=True, so unescape is applied to every string token
     par = mod.find('Element.parse_kv2')
-    out.append(_res('kv2.parser_unescapes', 'Tokenizer(file, allow_escapes=True)' in ast.unparse(par), par.lineno))
+    out.append(_shape('kv2.parser_unescapes', 'Tokenizer(file, allow_escapes=True)' in ast.unparse(par),
+                      'allow_escapes=False' in ast.unparse(par), par.lineno))
     # ValueType identifiers need no escaping
     ident = all(v and all(c.isalnum() or c == '_' for c in v) for v in _vtypes().values())
     out.append(_res('kv2.value_type_identifiers_need_no_escape', ident))
@@ -518,8 +529,10 @@ def static_encoding(repo):
                 enc.append((n.lineno, ast.unparse(n)))
     out.append(_res('encoding.exporter_encodes_with_the_file_encoding', not enc, enc[0][0] if enc else exp.lineno, str(enc)))
     src = ast.unparse(exp)
-    out.append(_res('encoding.stub_marker_is_followed_by_its_uuid',
-                    "file.write(pack('<i', -2))" in src and "str(subelem.uuid).encode('ascii') + b'\\x00'" in src, exp.lineno))
+    marker = "file.write(pack('<i', -2))" in src
+    out.append(_shape('encoding.stub_marker_is_followed_by_its_uuid',
+                      marker and "str(subelem.uuid).encode('ascii') + b'\\x00'" in src,
+                      marker and 'uuid' not in src.split("file.write(pack('<i', -2))", 1)[1].split('else:', 1)[0], exp.lineno))
     return out
 
 
